@@ -74,7 +74,7 @@ CHECKS.update({
              'after every step, for every task with a stored result, the run info (task, every parameter representation, input-task keys, config, user records) must be exactly '
              'that of the generation that produced the stored value, and after every successful run the log must hold exactly that run\'s messages. A focused slice on one task '
              'reaches depth 6 so that success / force / failing recomputation / retry sequences are covered.',
-        note='Timestamps, user name and version are not compared; the log of a task whose latest attempt failed is not constrained (statement speaks of successful runs).',
+        note='Includes a nested run of a same-named task in another namespace. Timestamps, user name and version are not compared; the log of a task whose latest attempt failed is not constrained (statement speaks of successful runs).',
         design='DESIGN.md §4 C18', engine='worlds+refmodel+histories'),
 })
 
@@ -121,7 +121,7 @@ CHECKS.update({
              'after another has returned) run as real threads under a cooperative scheduler that owns every lock acquire/release, exists, open, read, truncating open, half-write, close, '
              'unlink and compute step. ALL schedules with <= 2 (quick) / 3-4 (thorough) preemptions are executed; per schedule: every call returns a value some completed computation produced '
              '(get may say NO_VALUE), nobody fails because of another\'s write, compute+save regions never overlap, the entry at quiescence is the last writer\'s complete value, a late '
-             'caller does not recompute unless a write overlapped it, no deadlock. The lock model is bound to the real FileLock (timeout=0 acquisition on every grant); a vacuity counter '
+             'caller does not recompute unless a write overlapped it, no deadlock. Whether an acquire is enabled is decided by a non-blocking probe of the real lock file as it is on disk (so unlinking / re-creating the lock file has its real effect) and the real FileLock is taken with timeout=0 on every grant; JSON, numpy and DataFrame caches; a vacuity counter '
              'requires schedules in which a reader really sits inside a write window; sampled schedules are replayed twice.',
         note='Threads stand in for processes (no shared Python state between callers). Steps between two visible operations are atomic. Preemption bound, not full interleaving space.',
         design='DESIGN.md §4 C15', engine='sched'),
